@@ -157,6 +157,11 @@ def ekf_driver_source(spec, ns="gen", name="filter", kind="ekf"):
         A("  }")
         A("  printf(\"config innovation_filtering %a\\n\", (double)cpp::Config::innovation_filtering);")
         A("  printf(\"config max_dt_sec %a\\n\", (double)cpp::Config::max_dt_sec);")
+    # Options constructors: a partially filled Options object leaves the other fields at 0
+    A(f"  {{ StateOptions o; o.{st_[-1]} = 7.5; State t(o);")
+    for i, s in enumerate(st_):
+        A(f"    printf(\"popt state {i} %a\\n\", t.{s}());")
+    A("  }")
     # Options constructors, by name
     A("  { StateOptions o;")
     for i, s in enumerate(st_):
@@ -275,7 +280,7 @@ def sensor_line(spec, key, point, P, z):
 def parse(text):
     """-> (prelude dict, cases list). prelude: {'idx': {(kind, ...): int}, 'dflt': ..., 'opt': ...};
     each case: {'kind': 'P'|'S', 'sensor': si, tag: {index tuple: float}}"""
-    pre = {"idx": {}, "dflt": {}, "opt": {}, "cread": {}, "config": {}}
+    pre = {"idx": {}, "dflt": {}, "opt": {}, "cread": {}, "config": {}, "popt": {}}
     cases = []
     cur = None
     for line in text.splitlines():
@@ -284,7 +289,7 @@ def parse(text):
             continue
         if t[0] == "config":
             pre["config"][t[1]] = float.fromhex(t[2])
-        elif t[0] in ("idx", "dflt", "opt", "cread"):
+        elif t[0] in ("idx", "dflt", "opt", "cread", "popt"):
             key = tuple([t[1]] + [int(x) for x in t[2:-1]])
             pre[t[0]][key] = int(t[-1]) if t[0] == "idx" else float.fromhex(t[-1])
         elif t[0] == "case":
